@@ -252,6 +252,9 @@ class MapSpec:
     @classmethod
     def from_string(cls: type[MapSpec], expr: str) -> MapSpec:
         """Construct an MapSpec from a string."""
+        expr = expr.strip()
+        if len(expr) >= 2 and expr[0] == expr[-1] and expr[0] in "'\"":
+            expr = expr[1:-1]  # tolerate a spec that is itself wrapped in quotes
         try:
             in_, out_ = expr.split("->")
         except ValueError:
@@ -308,6 +311,11 @@ def _parse_indexed_arrays(expr: str) -> tuple[ArraySpec, ...]:
         )
         raise ValueError(msg)
     array_pattern = r"(\w+(?:\.\w+)?\w*)\[(.+?)\]"
+    # Everything that is not part of an indexed array must be a separator; otherwise text
+    # would silently be dropped, e.g., 'x-y[i]' would be read as 'y[i]'.
+    if leftover := re.sub(r"[\s,]", "", re.sub(array_pattern, "", expr)):
+        msg = f"Invalid expression '{expr.strip()}': cannot parse '{leftover}'."
+        raise ValueError(msg)
     return tuple(
         ArraySpec(name, _parse_index_string(indices))
         for name, indices in re.findall(array_pattern, expr)
